@@ -331,6 +331,9 @@ def run(seed, n, **kw):
             nops += 1
             if b["r"]:
                 hist[b["r"][0]] = hist.get(b["r"][0], 0) + 1
+            a = dict(a)
+            if isinstance(a["r"], dict):
+                a["r"] = a["r"]["res"]
             if a != b:
                 diffs.append((i, j, "model", a, "impl", b, keep[i][1]["ops"][j]))
                 break
